@@ -3,9 +3,10 @@
     replaced by the negated rank of its values), and the theorem: when no
     column is listed twice in [reverse], [sorted] is THE stable sort of the row
     tuples with per-column reversal ([spec_sorted]). *)
-From Coq Require Import Permutation Sorting.Sorted.
+From Coq Require Import QArith Qpower Permutation Sorting.Sorted.
 From CG3 Require Import Lib.PyZ Lib.Chars Lib.StableSort Lib.Val Model.Csv Model.Table Spec.TableSpec Proofs.TableBase.
 Import ListNotations.
+Open Scope Z_scope.
 
 (* ================================================================== A. order facts *)
 
@@ -68,24 +69,94 @@ Qed.
 Lemma str_cmp_good : cmp_good str_cmp.
 Proof. unfold str_cmp. apply list_cmp_good. exact Z_compare_good. Qed.
 
+(* ------------------------------------------------------------------ floats: by value, then (e, m) *)
+
+Definition fcmp (m1 e1 m2 e2 : Z) : comparison :=
+  match Qcompare (dec_q m1 e1) (dec_q m2 e2) with
+  | Eq => match e1 ?= e2 with Eq => m1 ?= m2 | Lt => Lt | Gt => Gt end
+  | Lt => Lt
+  | Gt => Gt
+  end.
+
+Lemma cell_cmp_CF m1 e1 m2 e2 : cell_cmp (CF m1 e1) (CF m2 e2) = fcmp m1 e1 m2 e2.
+Proof. reflexivity. Qed.
+
+Lemma zlex_lt e1 m1 e2 m2 :
+  match e1 ?= e2 with Eq => m1 ?= m2 | Lt => Lt | Gt => Gt end = Lt <->
+  (e1 < e2 \/ (e1 = e2 /\ m1 < m2)).
+Proof.
+  destruct (Z.compare_spec e1 e2) as [H|H|H].
+  - destruct (Z.compare_spec m1 m2) as [H'|H'|H']; split; intros H0; try discriminate; try lia; reflexivity.
+  - split; intros H0; [lia|reflexivity].
+  - split; intros H0; [discriminate|lia].
+Qed.
+
+Lemma fcmp_opp m1 e1 m2 e2 : fcmp m2 e2 m1 e1 = CompOpp (fcmp m1 e1 m2 e2).
+Proof.
+  unfold fcmp. rewrite <- (Qcompare_antisym (dec_q m1 e1) (dec_q m2 e2)).
+  destruct (Qcompare (dec_q m1 e1) (dec_q m2 e2)); cbn [CompOpp]; try reflexivity.
+  rewrite (Z.compare_antisym e1 e2). destruct (e1 ?= e2); cbn [CompOpp]; try reflexivity.
+  apply Z.compare_antisym.
+Qed.
+
+Lemma fcmp_eq m1 e1 m2 e2 : fcmp m1 e1 m2 e2 = Eq -> e1 = e2 /\ m1 = m2.
+Proof.
+  unfold fcmp. destruct (Qcompare (dec_q m1 e1) (dec_q m2 e2)); try discriminate.
+  destruct (e1 ?= e2) eqn:E; try discriminate. intros H.
+  split; apply Z.compare_eq; assumption.
+Qed.
+
+Lemma fcmp_lt_iff m1 e1 m2 e2 :
+  fcmp m1 e1 m2 e2 = Lt <->
+  ((dec_q m1 e1 < dec_q m2 e2)%Q \/
+   ((dec_q m1 e1 == dec_q m2 e2)%Q /\ (e1 < e2 \/ (e1 = e2 /\ m1 < m2)))).
+Proof.
+  unfold fcmp. generalize (dec_q m1 e1) (dec_q m2 e2). intros q1 q2.
+  destruct (Qcompare q1 q2) eqn:E.
+  - apply (proj2 (Qeq_alt q1 q2)) in E. rewrite zlex_lt. split; intros H.
+    + right. split; [exact E|exact H].
+    + destruct H as [H|[_ H]]; [|exact H]. exfalso. rewrite E in H. apply (Qlt_irrefl q2). exact H.
+  - split; intros H; [left; apply (proj2 (Qlt_alt q1 q2)); exact E|reflexivity].
+  - split; intros H; [discriminate|]. destruct H as [H|[H _]].
+    + apply (proj1 (Qlt_alt q1 q2)) in H. congruence.
+    + apply (proj1 (Qeq_alt q1 q2)) in H. congruence.
+Qed.
+
+Lemma fcmp_lt_trans m1 e1 m2 e2 m3 e3 :
+  fcmp m1 e1 m2 e2 = Lt -> fcmp m2 e2 m3 e3 = Lt -> fcmp m1 e1 m3 e3 = Lt.
+Proof.
+  rewrite !fcmp_lt_iff.
+  generalize (dec_q m1 e1) (dec_q m2 e2) (dec_q m3 e3). intros q1 q2 q3.
+  intros [H1|[H1 L1]] [H2|[H2 L2]].
+  - left. apply (Qlt_trans q1 q2 q3); assumption.
+  - left. rewrite <- H2. exact H1.
+  - left. rewrite H1. exact H2.
+  - right. split; [rewrite H1; exact H2|lia].
+Qed.
+
 Lemma cell_cmp_good : cmp_good cell_cmp.
 Proof.
   destruct str_cmp_good as [So [Se St]]. destruct Z_compare_good as [Zo [Ze Zt]].
   split; [|split].
-  - intros [x|x|x|] [y|y|y|]; cbn [cell_cmp cell_rank]; try reflexivity.
+  - intros [x|x|x| |m1 e1] [y|y|y| |m2 e2]; try rewrite !cell_cmp_CF;
+      cbn [cell_cmp cell_rank]; try reflexivity.
     + apply Zo.
     + apply So.
     + apply Zo.
-  - intros [x|x|x|] [y|y|y|]; cbn [cell_cmp cell_rank]; intros H; try discriminate.
+    + apply fcmp_opp.
+  - intros [x|x|x| |m1 e1] [y|y|y| |m2 e2]; try rewrite !cell_cmp_CF;
+      cbn [cell_cmp cell_rank]; intros H; try discriminate.
     + f_equal. apply Ze. exact H.
     + f_equal. apply Se. exact H.
     + destruct x, y; try discriminate; reflexivity.
     + reflexivity.
-  - intros [x|x|x|] [y|y|y|] [z|z|z|]; cbn [cell_cmp cell_rank]; intros H1 H2;
-      try discriminate; try reflexivity.
+    + apply fcmp_eq in H. destruct H as [He Hm]. subst. reflexivity.
+  - intros [x|x|x| |m1 e1] [y|y|y| |m2 e2] [z|z|z| |m3 e3]; try rewrite !cell_cmp_CF;
+      cbn [cell_cmp cell_rank]; intros H1 H2; try discriminate; try reflexivity.
     + apply (Zt x y z H1 H2).
     + apply (St x y z H1 H2).
     + apply (Zt _ _ _ H1 H2).
+    + apply (fcmp_lt_trans m1 e1 m2 e2 m3 e3 H1 H2).
 Qed.
 
 Lemma key_cmp_good : cmp_good key_cmp.
@@ -204,6 +275,74 @@ Lemma reverse_int_cmp : forall x y,
   cell_cmp (reverse_cell (CI x)) (reverse_cell (CI y)) = cell_cmp (CI y) (CI x).
 Proof.
   intros x y. cbn [reverse_cell cell_cmp]. rewrite <- !Z.opp_eq_mul_m1. apply Z.compare_opp.
+Qed.
+
+
+Lemma dec_q_neg m e : (dec_q (m * -1) e == - dec_q m e)%Q.
+Proof. unfold dec_q. rewrite <- Z.opp_eq_mul_m1, inject_Z_opp. ring. Qed.
+
+Lemma Qcompare_opp a b : Qcompare (- a) (- b) = Qcompare b a.
+Proof.
+  destruct a as [na da], b as [nb db]. unfold Qcompare, Qopp. cbn [Qnum Qden].
+  rewrite !Z.mul_opp_l. apply Z.compare_opp.
+Qed.
+
+(* the tie-break on the exponent is not reversed by negation: exact when equal
+   values have equal exponents (normalised decimals) *)
+Lemma reverse_float_cmp : forall m1 e1 m2 e2,
+  ((dec_q m1 e1 == dec_q m2 e2)%Q -> e1 = e2) ->
+  cell_cmp (reverse_cell (CF m1 e1)) (reverse_cell (CF m2 e2)) = cell_cmp (CF m2 e2) (CF m1 e1).
+Proof.
+  intros m1 e1 m2 e2 H. cbn [reverse_cell]. rewrite !cell_cmp_CF. unfold fcmp.
+  rewrite (Qcompare_comp _ _ (dec_q_neg m1 e1) _ _ (dec_q_neg m2 e2)). rewrite Qcompare_opp.
+  destruct (Qcompare (dec_q m2 e2) (dec_q m1 e1)) eqn:E; try reflexivity.
+  apply (proj2 (Qeq_alt _ _)) in E. symmetry in E. apply H in E. subst e2. rewrite Z.compare_refl.
+  rewrite <- !Z.opp_eq_mul_m1. apply Z.compare_opp.
+Qed.
+
+(* 1.0 written 10e-1 and 1e0: the hypothesis cannot be dropped *)
+Example reverse_float_cmp_needs_normal :
+  cell_cmp (reverse_cell (CF 10 (-1))) (reverse_cell (CF 1 0)) <> cell_cmp (CF 1 0) (CF 10 (-1)).
+Proof. vm_compute. discriminate. Qed.
+
+(* normalised decimals: no trailing zero in the mantissa, zero is 0e0 *)
+Lemma dec_q_shift m1 e1 m2 e2 :
+  e1 < e2 -> (dec_q m1 e1 == dec_q m2 e2)%Q -> m1 = m2 * 10 ^ (e2 - e1).
+Proof.
+  intros Hlt H. unfold dec_q in H.
+  assert (H10 : ~ (10 # 1 == 0)%Q) by (intros X; discriminate X).
+  replace e2 with ((e2 - e1) + e1) in H at 1 by lia.
+  rewrite (Qpower_plus _ _ _ H10) in H. rewrite Qmult_assoc in H.
+  apply (proj1 (Qmult_inj_r _ _ _ (Qpower_not_0 _ e1 H10))) in H.
+  change (10 # 1)%Q with (inject_Z 10) in H.
+  rewrite <- (Zpower_Qpower 10 (e2 - e1)) in H by lia.
+  rewrite <- inject_Z_mult in H. apply (proj1 (inject_Z_injective _ _)). exact H.
+Qed.
+
+Lemma dec_normal_lt_absurd m1 e1 m2 e2 :
+  dec_normal (CF m1 e1) -> dec_normal (CF m2 e2) ->
+  (dec_q m1 e1 == dec_q m2 e2)%Q -> e1 < e2 -> False.
+Proof.
+  intros [N1a N1b] [N2a N2b] H Hlt. pose proof (dec_q_shift m1 e1 m2 e2 Hlt H) as Hm.
+  assert (Hp : 10 ^ (e2 - e1) = 10 * 10 ^ (e2 - e1 - 1)).
+  { rewrite <- Z.pow_succ_r by lia. f_equal. lia. }
+  destruct (Z.eq_dec m1 0) as [Z1|NZ1].
+  - assert (Z2 : m2 = 0).
+    { rewrite Z1 in Hm. symmetry in Hm. apply Z.mul_eq_0 in Hm. destruct Hm as [Hm|Hm]; [exact Hm|].
+      exfalso. pose proof (Z.pow_pos_nonneg 10 (e2 - e1)). lia. }
+    specialize (N1a Z1). specialize (N2a Z2). lia.
+  - apply (N1b NZ1). rewrite Hm, Hp.
+    replace (m2 * (10 * 10 ^ (e2 - e1 - 1))) with ((m2 * 10 ^ (e2 - e1 - 1)) * 10) by ring.
+    apply Z_mod_mult.
+Qed.
+
+Lemma dec_normal_exp m1 e1 m2 e2 :
+  dec_normal (CF m1 e1) -> dec_normal (CF m2 e2) ->
+  (dec_q m1 e1 == dec_q m2 e2)%Q -> e1 = e2.
+Proof.
+  intros N1 N2 H. destruct (Z.lt_trichotomy e1 e2) as [Hlt|[He|Hgt]]; [|exact He|].
+  - exfalso. apply (dec_normal_lt_absurd m1 e1 m2 e2 N1 N2 H Hlt).
+  - exfalso. symmetry in H. apply (dec_normal_lt_absurd m2 e2 m1 e1 N2 N1 H Hgt).
 Qed.
 
 Lemma cell_same_eq a b : cell_same a b = true -> a = b.
@@ -327,7 +466,7 @@ Qed.
 (* the key column of a reversed column *)
 Definition key_col (t : table) (c : str) : list cell :=
   match dtype_of (col_of t c) with
-  | DInt => map reverse_cell (col_of t c)
+  | DInt | DFloat => map reverse_cell (col_of t c)
   | _ => map (neg_rank_cell (col_of t c)) (col_of t c)
   end.
 
@@ -360,6 +499,14 @@ Proof.
   { intros c Ec. rewrite mem_str_app1, Ec, orb_true_r. apply str_eqb_eq in Ec. subst c. reflexivity. }
   destruct (dtype_of (col_of t c0)) eqn:Ed; try discriminate; inversion H as [Hd]; clear H Hd.
   - (* DInt: negated in place *)
+    unfold enumerate, kcols_of. rewrite map_length.
+    pose proof (enum_map_index (fun c => if mem_str c p then key_col t c else col_of t c)
+                  (map reverse_cell) c0 columns 0%nat i Hnd Ei) as HE.
+    cbn [Nat.add] in HE. rewrite HE. apply map_ext. intros c.
+    destruct (str_eqb c c0) eqn:Ec; [|apply Hother; exact Ec].
+    rewrite <- (Hself c Ec). apply str_eqb_eq in Ec. subst c. rewrite Hp.
+    unfold key_col. rewrite Ed. reflexivity.
+  - (* DFloat: negated in place *)
     unfold enumerate, kcols_of. rewrite map_length.
     pose proof (enum_map_index (fun c => if mem_str c p then key_col t c else col_of t c)
                   (map reverse_cell) c0 columns 0%nat i Hnd Ei) as HE.
@@ -452,26 +599,42 @@ Proof.
 Qed.
 
 Lemma key_col_cmp t c i j :
+  dec_normal_col (col_of t c) ->
   (i < length (col_of t c))%nat -> (j < length (col_of t c))%nat ->
   cell_cmp (nth i (key_col t c) CN) (nth j (key_col t c) CN) =
   cell_cmp (nth j (col_of t c) CN) (nth i (col_of t c) CN).
 Proof.
-  intros Hi Hj. unfold key_col.
+  intros Hdn Hi Hj. unfold key_col.
   assert (Hnr : cell_cmp (nth i (map (neg_rank_cell (col_of t c)) (col_of t c)) CN)
                          (nth j (map (neg_rank_cell (col_of t c)) (col_of t c)) CN) =
                 cell_cmp (nth j (col_of t c) CN) (nth i (col_of t c) CN)).
   { rewrite (nth_map_in _ _ i CN CN Hi), (nth_map_in _ _ j CN CN Hj).
     apply neg_rank_reverses; apply nth_In; assumption. }
   destruct (dtype_of (col_of t c)) eqn:Ed; try exact Hnr.
-  unfold dtype_of in Ed. destruct (forallb is_CI (col_of t c)) eqn:Ef.
-  - rewrite forallb_forall in Ef.
-    rewrite (nth_map_in _ _ i CN CN Hi), (nth_map_in _ _ j CN CN Hj).
-    pose proof (Ef _ (nth_In _ CN Hi)) as Fi. pose proof (Ef _ (nth_In _ CN Hj)) as Fj.
-    destruct (nth i (col_of t c) CN) as [zi| | |]; try discriminate.
-    destruct (nth j (col_of t c) CN) as [zj| | |]; try discriminate.
-    apply reverse_int_cmp.
-  - destruct (forallb is_CS (col_of t c)); [discriminate|].
-    destruct (forallb is_CB (col_of t c)); discriminate.
+  - (* DInt *)
+    unfold dtype_of in Ed. destruct (forallb is_CI (col_of t c)) eqn:Ef.
+    + rewrite forallb_forall in Ef.
+      rewrite (nth_map_in _ _ i CN CN Hi), (nth_map_in _ _ j CN CN Hj).
+      pose proof (Ef _ (nth_In _ CN Hi)) as Fi. pose proof (Ef _ (nth_In _ CN Hj)) as Fj.
+      destruct (nth i (col_of t c) CN) as [zi| | | |]; try discriminate.
+      destruct (nth j (col_of t c) CN) as [zj| | | |]; try discriminate.
+      apply reverse_int_cmp.
+    + destruct (forallb is_CF (col_of t c)); [discriminate|].
+      destruct (forallb is_CS (col_of t c)); [discriminate|].
+      destruct (forallb is_CB (col_of t c)); discriminate.
+  - (* DFloat *)
+    unfold dtype_of in Ed. destruct (forallb is_CI (col_of t c)); [discriminate|].
+    destruct (forallb is_CF (col_of t c)) eqn:Ef.
+    + rewrite forallb_forall in Ef.
+      rewrite (nth_map_in _ _ i CN CN Hi), (nth_map_in _ _ j CN CN Hj).
+      pose proof (Ef _ (nth_In _ CN Hi)) as Fi. pose proof (Ef _ (nth_In _ CN Hj)) as Fj.
+      unfold dec_normal_col in Hdn. rewrite Forall_forall in Hdn.
+      pose proof (Hdn _ (nth_In _ CN Hi)) as Ni. pose proof (Hdn _ (nth_In _ CN Hj)) as Nj.
+      destruct (nth i (col_of t c) CN) as [| | | |mi ei]; try discriminate.
+      destruct (nth j (col_of t c) CN) as [| | | |mj ej]; try discriminate.
+      apply reverse_float_cmp. intros Hq. apply (dec_normal_exp mi ei mj ej Ni Nj Hq).
+    + destruct (forallb is_CS (col_of t c)); [discriminate|].
+      destruct (forallb is_CB (col_of t c)); discriminate.
 Qed.
 
 Lemma row_at_map {A} (g : A -> list cell) cs i :
@@ -481,11 +644,12 @@ Proof. unfold row_at. apply map_map. Qed.
 (* on rows of the table the order of the coded keys is the specified order *)
 Lemma key_leb_spec t cs rev i j :
   wf t -> Forall (fun c => In c (hdr t)) cs -> NoDup rev ->
+  (forall c, In c rev -> In c cs -> dec_normal_col (col_of t c)) ->
   (i < nrows t)%nat -> (j < nrows t)%nat ->
   key_leb (row_at (kcols_of t cs rev) i) (row_at (kcols_of t cs rev) j) =
   spec_row_leb (hdr t) cs (rev_flags cs rev) (row_at (cols t) i) (row_at (cols t) j).
 Proof.
-  intros Hwf Hcs Hnd Hi Hj.
+  intros Hwf Hcs Hnd Hdn Hi Hj.
   unfold spec_row_leb, key_leb, proj, rev_flags, kcols_of. rewrite !row_at_map.
   rewrite (key_cmp_spec_key_cmp _ _
              (fun c => nth (pos c (hdr t)) (row_at (cols t) i) CN)
@@ -498,25 +662,29 @@ Proof.
     rewrite Forall_forall in Hcs.
     assert (Hlen : length (col_of t c) = nrows t)
       by (apply col_of_length; [exact Hwf|apply Hcs; exact Hc]).
-    apply key_col_cmp; lia.
+    apply key_col_cmp; [apply Hdn; assumption|lia|lia].
   - apply mem_str_false in E. rewrite (count_str_notin c rev E). reflexivity.
 Qed.
 
 (* ------------------------------------------------------------------ the theorem *)
 
-(* NB the hypothesis [hdr t = [] -> nrows t = 0]: a table without columns has
+(* NB a reversed float column must hold normalised decimals ([dec_normal_col],
+   what the harness passes): the model's structural tie-break between equal
+   values with different exponents is not reversed by negation.
+   NB the hypothesis [hdr t = [] -> nrows t = 0]: a table without columns has
    no rows (wf alone allows [mkT [] [] 5], for which [sorted] answers the
    empty table, see [sorted_no_columns_loses_rows]). *)
 Theorem sorted_is_stable_sort : forall t columns reverse t',
   wf t -> (hdr t = [] -> nrows t = 0%nat) -> sorted t columns reverse = Ok t' ->
   let cr := sort_columns t columns reverse in
   NoDup (snd cr) ->
+  (forall c, In c (snd cr) -> In c (fst cr) -> dec_normal_col (col_of t c)) ->
   hdr t' = hdr t /\ wf t' /\ nrows t' = nrows t /\
   rows t' = spec_sorted (hdr t) (rows t) (fst cr) (rev_flags (fst cr) (snd cr)).
 Proof.
   intros t columns reverse t' Hwf Hne H cr. subst cr.
   unfold sorted in H. destruct (sort_columns t columns reverse) as [cs rev] eqn:Hsc. cbn [fst snd].
-  intros Hnr.
+  intros Hnr Hdn.
   destruct (sort_keys t cs rev) as [kc|e] eqn:Hk; cbn [bind] in H; [|discriminate].
   destruct (negb (forallb sortable_dtype kc)); [discriminate|].
   destruct (sort_keys_inv t cs rev kc Hwf Hnr Hk) as [Hin [Hnd Hkc]].
@@ -609,6 +777,21 @@ Example sorted_reverse_bool : exists t',
   rows t' = [[CB true; CI 1]; [CB true; CI 2]; [CB false; CI 1]; [CB false; CI 2]].
 Proof. eexists. split; vm_compute; reflexivity. Qed.
 
+
+(* column a (float) reversed: 2.0, 0.5, -1.25 *)
+Definition float_table : table :=
+  mkT [[97]; [98]] [[CF 5 (-1); CF (-125) (-2); CF 2 0]; [CI 1; CI 2; CI 3]] 3.
+
+Example sorted_reverse_float : exists t',
+  sorted float_table None (Some [[97]]) = Ok t' /\
+  rows t' = [[CF 2 0; CI 3]; [CF 5 (-1); CI 1]; [CF (-125) (-2); CI 2]].
+Proof. eexists. split; vm_compute; reflexivity. Qed.
+
+Example float_table_dec_normal : dec_normal_col (col_of float_table [97]).
+Proof.
+  vm_compute col_of. unfold dec_normal_col.
+  repeat constructor; try (intros H; discriminate H); intros _; vm_compute; discriminate.
+Qed.
 
 (* why [sorted_is_stable_sort] carries [hdr t = [] -> nrows t = 0]: wf allows rows without columns *)
 Example sorted_no_columns_loses_rows :
